@@ -152,20 +152,27 @@ def oracle(ctx):
                 c = partcase(ctx.rng)
             case, exp, _nt = c
             enc, bom = ctx.rng.choice([('utf-8', b''), ('utf-8', b'\xef\xbb\xbf')])
+            # the `encoding` option of the template decides the bytes of the result
+            out_enc = ctx.rng.choice([None, 'utf-8', 'utf-16-le', 'latin-1'])
+            if out_enc == 'latin-1':
+                try:
+                    exp.encode('latin-1')
+                except UnicodeEncodeError:
+                    out_enc = 'utf-16-le'
             path = os.path.join(d, 't%d.txt' % ctx.rng.randrange(10 ** 9))
             with open(path, 'wb') as f:
                 f.write(bom + case['src'].encode(enc))
             kw = {k: talgen.pyval(v, []) for k, v in case['vars']}
             try:
-                got = PageTextTemplateFile(path).render(**kw)
+                got = PageTextTemplateFile(path, **({'encoding': out_enc} if out_enc else {})).render(**kw)
             except Exception as e:
                 got = 'raised %s' % type(e).__name__
             ctx.count('evaluations')
             nt += 1
-            if got != exp.encode(enc):
+            if got != exp.encode(out_enc or 'utf-8'):
                 ctx.violation('file-based text template: result is not the text encoded to bytes with the template\'s encoding',
-                              {'src': case['src'], 'vars': case['vars'], 'file_encoding': enc, 'bom': bool(bom)},
-                              expected=repr(exp.encode(enc)), actual=repr(got))
+                              {'src': case['src'], 'vars': case['vars'], 'file_encoding': enc, 'bom': bool(bom), 'encoding_option': out_enc},
+                              expected=repr(exp.encode(out_enc or 'utf-8')), actual=repr(got))
             os.unlink(path)
     finally:
         shutil.rmtree(d, ignore_errors=True)
